@@ -63,6 +63,10 @@ pub struct Config {
     /// hardware address of the interface the responder is bound to (None: no interface, as in
     /// the unit tests); it may differ from the configured MAC and must not matter
     pub iface: Option<Mac>,
+    /// addresses configured on that interface (the host's own) and its flags: the responder is
+    /// told about them like in production, and they must not matter either
+    pub iface_ips: Vec<IpAddr>,
+    pub iface_flags: u32,
 }
 
 impl Config {
@@ -99,6 +103,8 @@ impl Config {
             "level": self.level,
             "build": self.build.as_str(),
             "iface": self.iface.as_ref().map(mac_str),
+            "iface_ips": self.iface_ips.iter().map(|i| i.to_string()).collect::<Vec<_>>(),
+            "iface_flags": self.iface_flags,
         })
     }
     pub fn from_json(v: &serde_json::Value) -> Option<Config> {
@@ -146,6 +152,8 @@ impl Config {
                 }
                 Some(out)
             }),
+            iface_ips: ips(v.get("iface_ips")).unwrap_or_default(),
+            iface_flags: v.get("iface_flags").and_then(|x| x.as_u64()).unwrap_or(0) as u32,
         })
     }
 }
@@ -157,6 +165,9 @@ pub struct Obs {
     pub tcb_len: usize,
     /// event-log lines printed by the real loggers while handling the frame
     pub logs: Vec<String>,
+    /// resident memory of the node process in KiB, sampled on every 2048th frame it handles
+    /// (a measurement, not part of the deterministic history)
+    pub rss_kb: Option<u64>,
 }
 
 #[derive(Clone, Debug, PartialEq, Eq)]
@@ -347,7 +358,16 @@ impl Node {
             cfg.logger.as_str(),
             cfg.level,
             nonce,
-            cfg.iface.as_ref().map(mac_str).unwrap_or_else(|| "-".to_string())
+            match &cfg.iface {
+                None => "-".to_string(),
+                Some(m) if cfg.iface_ips.is_empty() && cfg.iface_flags == 0 => mac_str(m),
+                Some(m) => format!(
+                    "{}/{}/{:x}",
+                    mac_str(m),
+                    if cfg.iface_ips.is_empty() { "-".to_string() } else { cfg.iface_ips.iter().map(|i| i.to_string()).collect::<Vec<_>>().join(",") },
+                    cfg.iface_flags
+                ),
+            }
         ))?;
         let (a, logs) = self.answer()?;
         if a != "C ok" {
@@ -383,11 +403,20 @@ impl Node {
         let r = it.next().unwrap_or("-");
         let reply = if r == "-" { None } else { unhex(r) };
         let tcb_len = it.next().and_then(|x| x.parse().ok()).unwrap_or(usize::MAX);
+        let rss_kb = if self.frames % 2048 == 0 { self.rss_kb() } else { None };
         Ok(Obs {
             reply,
             tcb_len,
             logs,
+            rss_kb,
         })
+    }
+
+    /// Resident set size of the node process (KiB), from /proc.
+    pub fn rss_kb(&self) -> Option<u64> {
+        let t = std::fs::read_to_string(format!("/proc/{}/statm", self.child.id())).ok()?;
+        let pages: u64 = t.split(' ').nth(1)?.parse().ok()?;
+        Some(pages * 4)
     }
 
     pub fn soft_reset(&mut self) -> Result<(), Death> {
